@@ -16,6 +16,7 @@
     lists "on both sides of each 4- and 8-per-line boundary"      chunked_roundtrip (+ _nonNone, _take) for every n,
                                                                  every length; all_chunk_records for the tables
     record lists closed by a blank line (ROCKS ELEME CONNE …)     untilBlank_roundtrip
+    "0..12 default initial conditions" and the look-ahead         untilKeyword_roundtrip, param_default_incons_roundtrip
     "output time"                                                 section_roundtrip_TIMES
     "block", "connection"                                         section_roundtrip_ELEME, section_roundtrip_CONNE
                                                                  (main and extra-precision tables)
@@ -106,6 +107,35 @@ theorem untilBlank_roundtrip {α β} (pad : Str → Str) (stop : Str → Bool) (
     (t : Str) (ht : isBlank (pad t) = true ∨ stop (pad t) = true) (rest : List Str) :
     untilBlank pad stop rd ((as.map enc).flatten ++ t :: rest) = .ok (as.map canon, rest) :=
   Proofs.T2.untilBlank_roundtrip pad stop rd enc canon as hrt t ht rest
+
+/-- **untilKeyword_roundtrip.**  PARAM's continuation lines: read one for one until a blank line (consumed), a
+    section keyword line (handed back, padded, to `read()`), or the end of the file. -/
+theorem untilKeyword_roundtrip (r : Rec) (kws : List Str) (lines : List Str) (rows : List (List Val))
+    (h : All2 (LineRT r kws) lines rows) (tail : List Str) (nxt : Option Str) (rest : List Str) (hend : KwEnd kws tail nxt rest) :
+    untilKeyword .default r kws (lines ++ tail) = .ok (rows.flatten, nxt, rest) :=
+  Proofs.T2.untilKeyword_roundtrip r kws lines rows h tail nxt rest hend
+
+/-- **Default initial conditions of PARAM** (current main table; 0, 1, …, 4, 5, …, 12, … values): written in lines
+    of four, or one blank line when there are none, and followed by a blank line / the next section's keyword line
+    / the end of the file, they are read back as exactly the values written, and a following keyword line is
+    handed back to `read()`.  (`hok`: no continuation line is blank or begins like a section keyword — true for
+    lines of numbers.) -/
+theorem param_default_incons_roundtrip (kws : List Str) (xs : List Val)
+    (hx : ∀ x ∈ xs, canonV (fieldAt mainTabs c!"default_incons" 0) x ≠ Val.none) {lines : List Str}
+    (hw : (if xs.length > 0 then writeChunks (recOf mainTabs c!"default_incons") 4 xs xs.length ((xs.length + 3) / 4)
+           else .ok [nl []]) = .ok lines)
+    (hok : ∀ l ∈ lines.drop 1, isBlank (padstring l) = false ∧ kws.any (startsWith (padstring l)) = false)
+    (tail : List Str) (nxt : Option Str) (rest : List Str) (hend : KwEnd kws tail nxt rest) :
+    ∃ l4 more, lines = l4 :: more ∧
+      (match readValues .default (recOf mainTabs c!"default_incons") l4 with
+       | .error e => .error e
+       | .ok di =>
+         match untilKeyword .default (recOf mainTabs c!"default_incons") kws (more ++ tail) with
+         | .error e => .error e
+         | .ok (m, n, r') => .ok (trimTrailingNones di ++ m, n, r')) =
+        Except.ok (xs.map (canonV (fieldAt mainTabs c!"default_incons" 0)), nxt, rest) :=
+  default_incons_roundtrip (chunkRec_of mainTabs c!"default_incons" 4 (main_chunks_ok _ (by decide))).2 kws xs hx hw hok
+    tail nxt rest hend
 
 /-! ### block names -/
 
